@@ -14,6 +14,7 @@
 #include <algorithm>
 #include <bitset>
 #include <cstring>
+#include <sstream>
 #include <tuple>
 #include <map>
 
@@ -135,14 +136,34 @@ inline std::string pack_hash_unordered(const T& obj) {
 }
 
 // member-wise digest of one snapshot
-inline json project_state(const Opm::ScheduleState& st, bool maskActionEvent = false, bool unordered = false) {
+inline json project_state(const Opm::ScheduleState& st, bool maskActionEvent = false, bool unordered = false, std::uint64_t extraEventMask = 0) {
     json o = json::object();
 #define VF_MEMBER(m) o[#m] = unordered ? pack_hash_unordered(st.m.get()) : pack_hash(st.m.get());
-    VF_MEMBER(gconsale) VF_MEMBER(gconsump) VF_MEMBER(gecon) VF_MEMBER(guide_rate) VF_MEMBER(wlist_manager)
+    VF_MEMBER(gecon) VF_MEMBER(guide_rate) VF_MEMBER(wlist_manager)
     VF_MEMBER(udq) VF_MEMBER(udq_active)
     VF_MEMBER(pavg) VF_MEMBER(wtest_config) VF_MEMBER(glo) VF_MEMBER(network) VF_MEMBER(network_balance)
     VF_MEMBER(rst_config) VF_MEMBER(bhp_defaults) VF_MEMBER(source)
 #undef VF_MEMBER
+    {
+        // GCONSALE / GCONSUMP entries embed a copy of the UnitSystem, whose serialised form includes a usage counter
+        // (UnitSystem::m_use_count, not compared by operator==) - projected through the accessors instead
+        auto udav = [](const Opm::UDAValue& u) { return u.is<std::string>() ? json(u.get<std::string>()) : u.is_numeric() ? json(hexd(u.getSI())) : json("unset"); };
+        json js = json::object(), jc = json::object();
+        for (const auto& g : st.group_order().names()) {
+            if (st.gconsale().has(g)) {
+                const auto& x = st.gconsale().get(g);
+                js[g] = {udav(x.sales_target), udav(x.max_sales_rate), udav(x.min_sales_rate), static_cast<int>(x.max_proc), hexd(x.udq_undefined), x.unit_system.getName()};
+            }
+            if (st.gconsump().has(g)) {
+                const auto& x = st.gconsump().get(g);
+                jc[g] = {udav(x.consumption_rate), udav(x.import_rate), x.network_node, hexd(x.udq_undefined), x.unit_system.getName()};
+            }
+        }
+        o["gconsale"] = js;
+        o["gconsale_n"] = st.gconsale().size();
+        o["gconsump"] = jc;
+        o["gconsump_n"] = st.gconsump().size();
+    }
     // members held in unordered containers: projected through their accessors, in a canonical order
     o["well_order"] = st.well_order().names();
     o["group_order"] = st.group_order().names();
@@ -222,15 +243,26 @@ inline json project_state(const Opm::ScheduleState& st, bool maskActionEvent = f
             for (const auto& wname : st.well_order().names())
                 if (wge.has(wname)) wge.clearEvent(wname, Opm::ScheduleEvents::ACTIONX_WELL_EVENT);
         }
+        if (extraEventMask != 0) {
+            ev.clearEvent(extraEventMask);
+            for (const auto& wname : st.well_order().names())
+                if (wge.has(wname)) wge.clearEvent(wname, extraEventMask);
+        }
         o["events"] = pack_hash(ev);
         json wg = json::object();
         auto names = st.well_order().names();
         for (const auto& g : st.group_order().names()) names.push_back(g);
         for (const auto& n : names)
-            if (wge.has(n)) wg[n] = pack_hash(wge.at(n));
+            if (wge.has(n) && (extraEventMask == 0 || wge.at(n).hasEvent(~std::uint64_t{0}))) wg[n] = pack_hash(wge.at(n));
         o["wgevents"] = wg;
     }
-    o["geo"] = pack_hash(st.geo_keywords());
+    {
+        // geometry-modifying keywords of the step: their text (the serialised form carries the line number of the
+        // keyword in the input file, which is not schedule state)
+        json jg = json::array();
+        for (const auto& kw : st.geo_keywords()) { std::ostringstream os; os << kw; jg.push_back(os.str()); }
+        o["geo"] = jg;
+    }
     o["msglimits"] = pack_hash(st.message_limits());
     o["times"] = {Opm::TimeService::to_time_t(st.start_time()), st.sim_step(), st.month_num(), st.year_num(),
                   st.first_in_month(), st.first_in_year(), st.save(), st.rptonly()};
